@@ -46,13 +46,14 @@ class BcryptHasher(PasswordHasher):
         :return: Hash
         """
         salt = salt or bcrypt.gensalt(rounds=self._rounds, prefix=self.prefix)
-        return as_str(bcrypt.hashpw(as_bytes(secret), salt))
+        # NOTE: bcrypt only uses the first 72 bytes (and bcrypt >= 5.0 refuses longer secrets)
+        return as_str(bcrypt.hashpw(as_bytes(secret)[:72], salt))
 
     def verify(self, hash: StrOrBytes, secret: StrOrBytes) -> bool:
         if not self.identify(hash):
             return False
         return bcrypt.checkpw(
-            password=as_bytes(secret),
+            password=as_bytes(secret)[:72],
             hashed_password=as_bytes(hash),
         )
 
